@@ -342,7 +342,8 @@ class ConstantPolynomial:
             # Denominator is a monomial
             return ConstantPolynomial([m / other.monomials[0] for m in self.monomials])
         else:
-            return const_singleton(from_const_poly(self) / from_const_poly(other))
+            # the denominator is kept as a factor with exponent -1, as to_const_poly does
+            return self / const_singleton(from_const_poly(other))
 
     def __pow__(self, exp):
         # Assume self is a monomial and exp is a fraction
@@ -680,6 +681,17 @@ def to_const_poly(e: expr.Expr) -> ConstantPolynomial:
 
     elif e.is_times():
         return to_const_poly(e.args[0]) * to_const_poly(e.args[1])
+
+    elif e.is_divides() and e.args[1].is_times():
+        # a / (b * c) = a / b / c: the factors of a denominator printed by from_const_mono
+        # are divided by one at a time, rather than multiplied out into a different sum
+        return to_const_poly(e.args[0] / e.args[1].args[0] / e.args[1].args[1])
+
+    elif e.is_divides() and e.args[1].is_power() and e.args[1].args[1].is_const() and \
+            e.args[1].args[1].val > 0 and not to_const_poly(e.args[1].args[0]).is_monomial():
+        # a / (b + c) ^ n: likewise, the sum stays one factor, now with exponent -n
+        base = from_const_poly(to_const_poly(e.args[1].args[0]))
+        return to_const_poly(e.args[0]) * ConstantPolynomial([ConstantMonomial(1, [(base, -e.args[1].args[1].val)])])
 
     elif e.is_divides():
         a, b = to_const_poly(e.args[0]), to_const_poly(e.args[1])
